@@ -148,14 +148,22 @@ class MessageSigner(object):
         # Decode base64 and a bitmask in first byte.
         is_compressed, recid, r, s = self._decode_signature(signature)
 
+        order = self._generator.order()
+        if not (1 <= r < order and 1 <= s < order):
+            raise EncodingError("r or s out of range")
+
         # Calculate the specific public key used to sign this message.
+        # Bit 1 of recid says the x coordinate of the nonce point was r + order.
+        x = r + order if recid > 1 else r
+        if x >= self._generator.p():
+            raise EncodingError("no curve point for this recovery id")
         y_parity = recid & 1
-        q = self._generator.possible_public_pairs_for_signature(
-            msg_hash, (r, s), y_parity=y_parity
-        )[0]
-        if recid > 1:
-            order = self._generator.order()
-            q = self._generator.Point(q[0] + order, q[1])
+        pairs = self._generator.possible_public_pairs_for_signature(
+            msg_hash, (x, s), y_parity=y_parity
+        )
+        if len(pairs) == 0 or pairs[0] == self._generator.infinity():
+            raise EncodingError("no public key can be recovered")
+        q = pairs[0]
         return q, is_compressed
 
     def pair_matches_key(self, pair: Any, key: Any, is_compressed: bool) -> bool:
@@ -208,7 +216,11 @@ class MessageSigner(object):
         Decode the internal fields of the base64-encoded signature.
         """
 
-        sig = a2b_base64(signature)
+        try:
+            sig = a2b_base64(signature)
+        except ValueError:
+            # binascii.Error (bad padding) is a ValueError; so is non-ASCII text
+            raise EncodingError("not base64")
         if len(sig) != 65:
             raise EncodingError("Wrong length, expected 65")
 
